@@ -1,7 +1,7 @@
 #!/bin/bash
 # runs every registered quick (or $1) check on the current tree, sequentially; prints one line per property
 tier="${1:-quick}"
-cd "$(dirname "$0")/.."
+cd "$(dirname "$0")/.." && mkdir -p .work
 for p in C01 C02 C03 C04 C05 C06 C07 C08 C09 C10 C11 C12 C13 C14 C15 C16 C17 C18 C19 C20; do
   s=$(date +%s)
   ./check $p --tier $tier > .work/all_$p.log 2>&1; rc=$?
